@@ -166,6 +166,7 @@ def run(ctx):
     checkpoint_then_refit(ctx)
     reentrant_reset(ctx)
     fit_gif_histories(ctx)
+    plotting_calls(ctx)
     preowned_channel_modules(ctx)
     e2e.base_histories(ctx, "C05", ctx.scale(150, 3000), ctx.scale(20, 80), fields=("labels", "cnt"))
 
@@ -597,3 +598,31 @@ def preowned_channel_modules(ctx):
         if done and len(calls) > 1:
             cov.hit("preowned:history-continued")
         cov.case(key, done and any(h > 0 for h in held) and len(est.W) >= 2)
+
+
+def plotting_calls(ctx):
+    """a plotting call (visualize / plot_cluster_bounds with the estimator's own labels_, short and long colour lists; a
+    fit_gif whose palette is smaller than the number of categories it creates) is part of a history like any other call:
+    afterwards the labels still number one per sample presented, index the categories, and the counters equal their
+    histogram — and a partial_fit can go on (shared generator harness/artv/plotpure.py)"""
+    from .. import plotpure
+    cov = ctx.cov
+    for sc in plotpure.scenarios(ctx, "C05", quick=24, thorough=240):
+        if sc.fam.name not in FAMS:
+            continue
+        where = f"after {sc.trained_by} then {sc.plot}" + (f" (drawing raised {sc.raised})" if sc.raised else "")
+        desc = dict(sc.desc, trained_by=sc.trained_by, state_changed_by_plot=sc.changed[:12])
+        try:
+            if sc.raised is not None and sc.plot.startswith("fit_gif"):
+                # fit_gif stopped in a frame: the samples presented so far are not a complete call; nothing to judge
+                cov.hit("plot:fit_gif-stopped-in-a-frame")
+                continue
+            check_state(ctx, sc.fam, sc.est, sc.n_presented, desc, where, scenario=":plotting-call")
+            k = 1 + (len(sc.rows) > 2)
+            sc.fam.pfit(sc.est, sc.rows.sl(0, k))
+            check_state(ctx, sc.fam, sc.est, sc.n_presented + k, dict(desc, then_partial_fit_rows=k), where + f" then partial_fit rows 0:{k}",
+                        scenario=":plotting-call")
+            cov.hit("plot:state-consistent-after-plotting")
+        except Exception as e:
+            cov.hit(f"plot:continuation-raised:{sc.fam.name}:{exc_enum(e)}")
+        cov.case(("plot", sc.fam.spec, sc.desc["rows"], sc.plot, sc.trained_by), True)
